@@ -201,6 +201,30 @@ fn long_buffers(ctx: &Ctx, rep: &mut Report) {
                     }
                 }
                 text.push_str("end");
+                // second shape of history: a long run of SHORT lines first (nothing in them for a
+                // width change to do), then lines that wrap inside a run of typed blanks
+                let mut text2 = String::new();
+                for i in 0..n {
+                    if i % 500 == 499 || i + 3 >= n {
+                        text2.push_str(&format!("n{}              v{}
+key{}             = {}
+", i % 10, i, i % 7, i));
+                    } else {
+                        text2.push_str(&format!("l{}
+", i % 1000));
+                    }
+                }
+                for (c2, r2) in [(17usize, 10usize), (13, 10), (25, 4)] {
+                    let mut vt = build_vt(cols, rows, None);
+                    let _ = vt.feed_str(&text2);
+                    let mut out = Out::default();
+                    let t = format!("{} short lines and padded columns at 20x10", n);
+                    if !resize_checked(&mut vt, c2, r2, &mut out, &t) || !resize_checked(&mut vt, cols, rows, &mut out, &t) {
+                        let v = &out.violations[0];
+                        let d: String = v.detail.chars().take(300).collect();
+                        return Some(format!("(short lines, then padded columns; to {}x{} and back) {}: {}", c2, r2, v.oracle, d));
+                    }
+                }
                 for (c2, r2) in [(33usize, 10usize), (7, 10), (20, 4), (40, 3)] {
                     let mut vt = build_vt(cols, rows, None);
                     let _ = vt.feed_str(&text);
@@ -358,6 +382,84 @@ fn dense_extreme_narrowing(ctx: &Ctx, rep: &mut Report) {
     }
 }
 
+/// Resizes as operations LIKE ANY OTHER, in the middle of the history: edit, resize, edit,
+/// resize ... - whatever a resize remembers (an anchor, an index of the first wrapped row, a
+/// cached position) has to survive or be dropped correctly when later edits, deletions and
+/// partial scrolls move things. Every resize transition is judged by the relational oracle.
+pub struct MixSys;
+impl System for MixSys {
+    type St = Vt;
+    fn init(&self, cfg: &Cfg) -> Vt {
+        cfg.build()
+    }
+    fn step(&self, cfg: &Cfg, vt: &mut Vt, op: &Op, out: Option<&mut Out>) {
+        if let Cmd::Resize(c, r) = op.cmd {
+            match out {
+                Some(out) => {
+                    let t = format!("history on {}x{}, now {}x{}", cfg.cols, cfg.rows, vt.size().0, vt.size().1);
+                    let _ = resize_checked(vt, c, r, out, &t);
+                    out.obs_hash = Some(crate::obs::hash_obs(&obs_full(vt)));
+                }
+                None => {
+                    let _ = vt.resize(c, r);
+                }
+            }
+        } else {
+            let _ = apply(vt, op);
+            if let Some(out) = out {
+                out.obs_hash = Some(crate::obs::hash_obs(&obs_full(vt)));
+            }
+        }
+    }
+    fn key(&self, vt: &Vt) -> u128 {
+        fingerprint(vt)
+    }
+    fn has_state_hook(&self) -> bool {
+        false
+    }
+}
+
+fn alpha_mix(cfg: &Cfg) -> Vec<Op> {
+    let (w, h) = (cfg.cols, cfg.rows);
+    let over: String = "abcdefghijklmnopqrstuvwxyz".chars().take(w + w / 2 + 1).collect();
+    vec![
+        t("ab"),
+        c(Seq(vec![Cup(Some(2), Some(1)), Text(over.clone())])),
+        Op::text(&over),
+        c(crlf()),
+        c(Seq(vec![Cup(Some(1), Some(1)), Dl(None)])),
+        c(Seq(vec![Cup(Some(2), Some(1)), Dl(None)])),
+        c(Seq(vec![Cup(Some(99), Some(1)), Lf, Lf, Lf])),
+        c(Seq(vec![Decstbm(Some(2), Some(h as u32)), Cup(Some(99), Some(1)), Lf, Decstbm(None, None)])),
+        c(Cuu(None)),
+        c(Cud(None)),
+        c(Dch(None)),
+        c(Cup(Some(2), Some(3))),
+        c(El(Some(1))),
+        Op::resize(w + 1, h),
+        Op::resize(w.max(3) - 1, h),
+        Op::resize(w * 2, h),
+        Op::resize(w, h + 1),
+        Op::resize(w, h),
+    ]
+}
+
+fn mix_part(tier: Tier) -> Part<'static, MixSys> {
+    Part {
+        name: "resizes-in-the-middle-of-histories",
+        sys: &MixSys,
+        cfgs: match tier {
+            Tier::Quick => cfgs(&[(4, 4)], &[None]),
+            Tier::Thorough => cfgs(&[(4, 4), (3, 3), (8, 5)], &[None]),
+        },
+        alphabet: &alpha_mix,
+        depth: tier.pick(6, 7),
+        seconds: tier.pick(25.0, 1800.0),
+        validated: true,
+        nontrivial: Some("resizes_with_content"),
+    }
+}
+
 fn make_sys(_tier: Tier) -> Sys {
     Sys {
         sizes: S4.to_vec(),
@@ -372,6 +474,7 @@ pub fn run(ctx: &Ctx) -> Report {
     run_part(ctx, &mut rep, &p);
     let sys1 = Sys { sizes: S4.to_vec(), chain: 1 };
     run_part(ctx, &mut rep, &modes_part(ctx.tier, &sys1));
+    run_part(ctx, &mut rep, &mix_part(ctx.tier));
     long_buffers(ctx, &mut rep);
     wide_rows(ctx, &mut rep);
     dense_extreme_narrowing(ctx, &mut rep);
@@ -390,6 +493,9 @@ pub fn run(ctx: &Ctx) -> Report {
 pub fn replay(ctx: &Ctx, v: &Value) -> bool {
     let tier = if v["tier"] == "thorough" { Tier::Thorough } else { Tier::Quick };
     let sys = make_sys(tier);
+    if v["part"] == "resizes-in-the-middle-of-histories" {
+        return replay_part(ctx, &mix_part(tier), v);
+    }
     if v["part"] == "dense-screens-extreme-narrowing" {
         let mut rep = Report::new();
         let c2 = Ctx { id: ctx.id.clone(), tier: Tier::Thorough, seed: 0, start: ctx.start, known: ctx.known.clone(), replay_dir: ctx.replay_dir.clone() };
